@@ -19,6 +19,9 @@ CLAIMED = {
  "C15": ("SSA path tables (media-type→codec decision tables, effect traces), type-switch tables",
          "Static necessary conditions only: the codec decision tables of ResponseEncoder/ResponseDecoder/RequestDecoder/negotiate agree with one reference table (hence with each other), the announced media type belongs to the returned encoder on every path, no nil encoder, 415 wiring, SetContentType composition table. Does not decide byte-level round trips, Accept grammar or third-party codecs.",
          "DESIGN.md §3 C15"),
+ "C16": ("SSA path tables of the muxer methods (effect traces: map keys, lock/unlock, router calls), loops unrolled once",
+         "Static necessary conditions only: one key shape for the wildcard table at its store and loads, rewritten pattern registered = pattern keyed, every captured value unescaped exactly once, pattern reported = pattern registered, mount-time state written under the mutex, well-formed 404 handler, no middleware dropped. Does not decide chi's matching nor percent-decoding being the inverse of URL construction.",
+         "DESIGN.md §3 C16"),
  "C17": ("constant-table agreement, SSA path table of ValidateFormat against per-format predicates, regexp/syntax anchoring, lock-set over path effects of ValidatePattern",
          "Static necessary conditions only: one format vocabulary across design, runtime and generated constants; each format's verdict is 'accept' exactly when the parser that names it succeeded (ip/ipv4/ipv6 relations by the same regexp with opposite polarity); anchored validator regexes; pattern cache read/written under its lock, keyed by the pattern, verdict tied to the compiled pattern. Does not decide the language of the stdlib parsers.",
          "DESIGN.md §3 C17"),
